@@ -1,7 +1,7 @@
 SPECIFICATION Spec
 CONSTANTS
   Threads = {1, 2}
-  PerThread = 3
+  PerThread = 2
   ByteApps = {"F", "G"}
   StreamApps = {"S"}
   Cap = 2
